@@ -42,7 +42,7 @@ func init() {
 		Parallel: 8,
 		Batches: func(seed int64, tier core.Tier) []core.Batch {
 			var bs []core.Batch
-			for rep := 0; rep < tierPick(tier, 1, 30); rep++ {
+			for rep := 0; rep < tierPick(tier, 2, 30); rep++ {
 				for _, w := range []int{1, 2, 8, 32} {
 					bs = append(bs, core.Batch{Name: fmt.Sprintf("stress-w%d-r%d", w, rep), TimeoutS: 300,
 						Params: core.Params(c03Params{Kind: "stress", Workers: w, Cycles: tierPick(tier, 15, 40), Perturb: 1 + rep%2})})
@@ -57,7 +57,7 @@ func init() {
 			for _, g := range []string{"G1", "G2", "G3-token", "G3-reset", "G3-event", "G3-reply", "G4", "G5", "G6", "control"} {
 				for _, w := range []int{1, 3, 8} {
 					bs = append(bs, core.Batch{Name: fmt.Sprintf("directed-%s-w%d", g, w), TimeoutS: 300,
-						Params: core.Params(c03Params{Kind: "directed", Gate: g, Workers: w, Rounds: tierPick(tier, 6, 150)})})
+						Params: core.Params(c03Params{Kind: "directed", Gate: g, Workers: w, Rounds: tierPick(tier, 12, 150)})})
 				}
 			}
 			return bs
